@@ -96,3 +96,18 @@ def rust_tables(normalize_rs_text):
     meta = {"ucd_version": unicodedata.unidata_version, "fold_entries": len(ft), "assigned_ranges": len(ar),
             "norm_entries": len(nt), "documented_blocks": [n for n, _ in blocks]}
     return txt, meta
+
+
+def latin1_model(normalize_rs_text):
+    """first 96 entries (U+00A0..U+00FF) of the crate's LATIN_1AB table, read from the current source"""
+    m = re.search(r"static LATIN_1AB: \[char; (\d+)\] = \[(.*?)\n\];", normalize_rs_text, re.S)
+    ents = re.findall(r"^\s*'(.*?)',", m.group(2), re.M)
+    def dec(s):
+        if s.startswith("\\u{"):
+            return int(s[3:-1], 16)
+        if s.startswith("\\"):
+            return ord(s[1])
+        return ord(s)
+    vals = [dec(e) for e in ents[:96]]
+    assert len(vals) == 96
+    return "// generated from matcher/src/chars/normalize.rs (LATIN_1AB[0..96]) of the current tree\npub static NORMALIZE_LATIN1: [u32; 96] = [%s];\n" % ", ".join(str(v) for v in vals)
